@@ -90,6 +90,20 @@ def sget (s : Store) (n : Bytes) : Layer := (List.lookup n s).getD {}
 def othersUntouched (names : List Bytes) (pre post : Store) (n : Bytes) : Bool :=
   names.all (fun k => k == n || layerEq (sget post k) (sget pre k))
 
+/-- the replace-semantics writers of a `LayerRef`, when they report success: `write_metadata` replaces exactly the
+metadata (types, directory and SBOMs untouched); `write_sboms` replaces exactly the layer's SBOM set. An operation
+without a layer reference does nothing. (Env, exec.d and plain files: C03 / the frame clause; failures: C12.) -/
+def writeOk (pre post : Layer) (op : Op) (out : Out) : Bool :=
+  match op, out with
+  | _, .noref => layerEq post pre
+  | .wmeta _ m, .ok =>
+    Dir.optBeq post.dir pre.dir && post.sboms == pre.sboms &&
+      (match pre.toml, post.toml with
+        | some (.doc t _), some (.doc t' m') => t' == t && m' == some m
+        | _, _ => false)
+  | .wsbom _ sb, .ok => Dir.optBeq post.dir pre.dir && post.dir.isSome && post.toml == pre.toml && post.sboms == sb
+  | _, _ => true
+
 /-- C01 for one step of a history: requests obey the decision table and the restored/empty clauses; every
 operation leaves the other layers alone. `names` is the universe of layer names of the history. -/
 def stepOk (names : List Bytes) (pre : Store) (op : Op) (out : Out) (log : List CbCall) (post : Store) : Bool :=
@@ -102,7 +116,7 @@ def stepOk (names : List Bytes) (pre : Store) (op : Op) (out : Out) (log : List 
   | .restore => true
   | op =>
     match op.name with
-    | some n => othersUntouched names pre post n
+    | some n => othersUntouched names pre post n && writeOk (sget pre n) (sget post n) op out
     | none => true
 
 end CnbVerif.Spec
